@@ -67,7 +67,7 @@ def status_predicates(fn, prefix):
     for n in fn.nodes:
         if n.k == "bin" and n.op in ("||", "&&") and (n.parent is None or not (n.parent.k == "bin" and n.parent.op in ("||", "&&"))):
             names = enum_refs(n, prefix)
-            if len(set(names)) >= 3:
+            if len(set(names)) >= 2:
                 vars_ = set(x.name for x in n.walk() if x.k == "ref" and x.d.get("d") in ("var", "parm"))
                 if len(vars_) == 1:
                     out.append((n, list(vars_)[0]))
